@@ -150,6 +150,44 @@ theorem C20_excluded_unquantized (env : Env) (tn : Tune) (layers : List Layer) (
   subst this
   exact hex hinc
 
+/-- a layer whose index is not in `layer_indexes` is handed to `model_quantize` exactly as it was in
+    the reference model — same position, class, activation, and `units` / `filters` NOT rescaled even
+    under filter tuning — for every selection, the empty one included -/
+theorem C20_excluded_unchanged (env : Env) (tn : Tune) (layers : List Layer) (o : QmOut)
+    (h : quantizeModel env tn layers = .ok o) (j : Nat) (L : Layer) (hj : layers[j]? = some L)
+    (hex : ¬ Included tn j) : o.arch[j]? = some L :=
+  quantizeModel_excluded h j L hj hex
+
+/-- an EMPTY selection (`layer_indexes = []`, `()`, `range(0)` — not `None`) selects no layer: the
+    dictionary handed to `model_quantize` is empty and the layer list is the reference list, for all
+    tuner answers, limits and filter-tuning modes.  (`none` = "no selection given" is a different
+    value: see the example below.) -/
+theorem C20_empty_selection_unquantized (env : Env) (tn : Tune) (layers : List Layer) (o : QmOut)
+    (hsel : tn.layerIndexes = some []) (h : quantizeModel env tn layers = .ok o) :
+    o.qdict = [] ∧ o.arch = layers := by
+  have hno : ∀ j, ¬ Included tn j := by
+    intro j hinc; unfold Included at hinc; rw [hsel] at hinc; simp at hinc
+  constructor
+  · rcases hq : o.qdict with _ | ⟨x, t⟩
+    · rfl
+    · obtain ⟨j, _, _, _, hinc⟩ := C20_entries_selected env tn layers o h x (by rw [hq]; simp)
+      exact absurd hinc (hno j)
+  · obtain ⟨⟨nf, _, hall⟩, _⟩ := quantizeModel_shape h
+    have hlen : layers.length = o.arch.length := hall.length_eq
+    apply List.ext_getElem?
+    intro j
+    by_cases hj : j < layers.length
+    · rw [quantizeModel_excluded h j layers[j] (by simp [hj]) (hno j)]
+      simp [hj]
+    · rw [List.getElem?_eq_none (by omega), List.getElem?_eq_none (by omega)]
+
+/-- `layer_indexes` counts through membership only: a list, tuple, range, set or array with the same
+    members (any order, duplicates) gives the same dictionary, layer list and tuner calls -/
+theorem C20_selection_membership_only (env : Env) (tn : Tune) (ix ix' : List Nat) (layers : List Layer)
+    (hsel : tn.layerIndexes = some ix) (hmem : ∀ i, i ∈ ix ↔ i ∈ ix') :
+    quantizeModel env { tn with layerIndexes := some ix' } layers = quantizeModel env tn layers :=
+  quantizeModel_sel env tn ix ix' layers hsel hmem
+
 /-- the model handed to `model_quantize` has the reference layer list: same names, classes, bias
     flags and activations in the same order; `units`/`filters` are either unchanged or
     `max(int(size·f), 1)` for a factor `f` offered by `filter_range` -/
@@ -497,6 +535,12 @@ example : (getQuantizer exEnv {} "bn_kernel" "bn" "BatchNormalization" false).to
 
 example : ValidOracleF (fun _ _ => (3 : Rat) / 2) := by intro nm; simp [filterRange]
 
+/-- `layer_indexes = []` and `layer_indexes = None` are different selections: nothing vs everything -/
+example : ¬ Included { layerIndexes := some [] } 1 ∧ Included { layerIndexes := none } 1 := by
+  constructor
+  · intro h; simp [Included] at h
+  · trivial
+
 /-! ## 6. forgiving factor (formula of forgiving_factor.py over ℝ, `Real.log`) -/
 
 /-- zero when trial and reference sizes coincide -/
@@ -522,6 +566,62 @@ theorem C20_delta_formula (δp δn rate ref trial : ℝ) :
   delta_eq δp δn rate ref trial
 
 example : (0 : ℝ) < 0.08 ∧ (1 : ℝ) < 2 ∧ (0 : ℝ) < 3408 := by norm_num
+
+/-! ### 6b. the bonus as the search computes it: `get_reference(model)`, `get_trial(model)`, `delta()`
+    on ONE `ForgivingFactorBits` object (`Model/Forgiving.lean`: `FFB`, `getReference`, `getTrial`,
+    `deltaObj`).  "Reference size" in the property is the value `get_reference` RETURNS
+    (= `AutoQKHyperModel.reference_size` = size of the reference model × `stress`). -/
+
+/-- the attribute `delta()` reads is the value `get_reference` returned — fresh or cached object, every
+    stress, every number type -/
+theorem C20_reference_attribute_returned {α : Type} (mul : α → α → α) (o : FFB α) (size : α) :
+    (getReference mul o size).2.referenceSize = some (getReference mul o size).1 :=
+  getReference_attr mul o size
+
+/-- a fresh object returns (and stores) the model size times `stress` -/
+theorem C20_reference_stressed (stress size : ℝ) :
+    (getReference (· * ·) ({ stress := stress } : FFB ℝ) size).1 = size * stress :=
+  getReference_fresh _ _ _ rfl
+
+/-- the reference is computed once: a later `get_reference` (another model, `stress` re-assigned in
+    between) returns the first value and changes nothing -/
+theorem C20_reference_cached {α : Type} (mul : α → α → α) (o : FFB α) (s1 s2 σ : α) :
+    getReference mul { (getReference mul o s1).2 with stress := σ } s2 =
+      ((getReference mul o s1).1, { (getReference mul o s1).2 with stress := σ }) :=
+  getReference_cached mul o s1 s2 σ
+
+/-- scoring through the API: after `get_reference(model)` returned `r`, any number of earlier trials,
+    and `get_trial(model)` returned `t`, `delta()` is the forgiving-factor formula at `(r, t)`:
+    zero when `t = r`, positive below, negative above, strictly decreasing in `t` — with
+    `r = size(reference) · stress` on a fresh object, for EVERY stress > 0. -/
+theorem C20_delta_api (δp δn rate : ℝ) (o : FFB ℝ) (refSize : ℝ) (ts : List ℝ) (t : ℝ) :
+    let r := (getReference (· * ·) o refSize).1
+    let d := fun t => deltaObj (delta δp δn rate) (trials (getReference (· * ·) o refSize).2 (ts ++ [t]))
+    d t = some (delta δp δn rate r t) ∧
+    (t = r → d t = some 0) ∧
+    (0 < δp → 0 < δn → 1 < rate → 0 < r → 0 < t →
+      (t < r → ∃ x, d t = some x ∧ 0 < x) ∧ (r < t → ∃ x, d t = some x ∧ x < 0)) := by
+  intro r d
+  have hd : ∀ t, d t = some (delta δp δn rate r t) := fun t => deltaObj_api _ _ o refSize ts t
+  refine ⟨hd t, ?_, ?_⟩
+  · intro h; rw [hd, h, delta_self]
+  · intro hp hn hr h0 ht
+    exact ⟨fun h => ⟨_, hd t, delta_pos_of_lt hp hr ht h⟩, fun h => ⟨_, hd t, delta_neg_of_gt hn hr h0 h⟩⟩
+
+/-- two trials scored on one object against one reference: the larger one gets the strictly smaller bonus -/
+theorem C20_delta_api_strictAnti (δp δn rate : ℝ) (o : FFB ℝ) (refSize : ℝ) (ts ts' : List ℝ) (t1 t2 : ℝ)
+    (hp : 0 < δp) (hn : 0 < δn) (hr : 1 < rate)
+    (h0 : 0 < (getReference (· * ·) o refSize).1) (h1 : 0 < t1) (h12 : t1 < t2) :
+    ∃ d1 d2,
+      deltaObj (delta δp δn rate) (trials (getReference (· * ·) o refSize).2 (ts ++ [t1])) = some d1 ∧
+      deltaObj (delta δp δn rate) (trials (getReference (· * ·) o refSize).2 (ts' ++ [t2])) = some d2 ∧
+      d2 < d1 :=
+  ⟨_, _, deltaObj_api _ _ o refSize ts t1, deltaObj_api _ _ o refSize ts' t2,
+    delta_strictAntiOn hp hn hr h0 (Set.mem_Ioi.mpr h1) (Set.mem_Ioi.mpr (lt_trans h1 h12)) h12⟩
+
+/-- stress ½, reference model of 776 bits: the reference is 388, and a 388-bit trial scores 0 -/
+example : (getReference (· * ·) ({ stress := 1/2 } : FFB ℝ) 776).1 = 388 := by
+  rw [C20_reference_stressed]; norm_num
 
 /-! ## 7. size model -/
 
